@@ -64,7 +64,8 @@ impl RawSock {
 #[verifier::external_body] pub fn tx_clone(tx: &PacketTx) -> PacketTx { unimplemented!() }
 #[verifier::external_body] pub fn reader_abort(r: &mut ReaderHandle) { }
 // restart_reader_for: a reader task keeps running when its handle is merely DROPPED (tokio detaches it); only abort() stops it.
-// `X.handle.abort();` on an owned handle is modelled as `let X = reader_aborted(X);`, the end of the binding's scope as `reader_drop(X)`,
+// `X.handle.abort()` on an owned handle is modelled as `reader_drop(reader_aborted(X))` (abort, then the handle goes away), the end of the scope of a
+// handle that was NOT aborted as `reader_drop(X)`,
 // and installing a handle over an existing one (HashMap::insert returns and drops the old value) as a precondition of the insert.
 impl ReaderHandle { pub uninterp spec fn aborted(&self) -> bool; }
 #[verifier::external_body] pub fn reader_aborted(r: ReaderHandle) -> (a: ReaderHandle) ensures a.aborted() { r }
@@ -102,6 +103,7 @@ pub open spec fn relayed(b: Seq<Vec<u8>>, n: int) -> Seq<Seq<u8>>
 {
     if n <= 0 { Seq::empty() } else if b[n - 1]@.len() > 0 { relayed(b, n - 1).push(b[n - 1]@) } else { relayed(b, n - 1) }
 }
+pub type ConnectionId = u64;
 // HashSet<u64>
 #[verifier::external_body] pub struct IdSet { _p: () }
 impl IdSet {
@@ -253,7 +255,9 @@ def _reader_scope_end(text):
             return out
         ob = m.end() - 1
         cb = rules.match_bracket(out, ob, '{', '}')
-        out = out[:cb] + '    reader_drop(%s);\n    ' % m.group(1) + out[cb:]
+        if 'reader_aborted(%s)' % m.group(1) not in out[ob:cb]:
+            # the handle is not consumed by an abort inside the block: it is dropped (detached) at the end of the block
+            out = out[:cb] + '    reader_drop(%s);\n    ' % m.group(1) + out[cb:]
         pos = m.end()
 
 
@@ -570,7 +574,7 @@ def build():
     u.add(u.fn(UP, 'restart_reader_for', sub='conns',
                pre_rewrite=[('conn.label.clone()', 'string_clone(&conn.label)', 1), ('packet_tx.clone()', 'tx_clone(packet_tx)', 1),
                             (re.compile(r'readers\.remove\(&([\w\.]+)\)'), r'readers_remove(readers, \1)', None),
-                            (re.compile(r'\b(\w+)\.handle\.abort\(\);'), r'let \1 = reader_aborted(\1);', None),
+                            (re.compile(r'\b(\w+)\.handle\.abort\(\)'), r'reader_drop(reader_aborted(\1))', None),
                             (_reader_scope_end, None, None),
                             (re.compile(r'readers\.insert\(\s*'), 'readers_install(readers, ', None)],
                post_rewrite=[('readers: &mut HashMap<ConnectionId, ReaderHandle>', 'readers: &mut HashMap<u64, ReaderHandle>', 1), ('packet_tx: &UnboundedSender<UplinkPacket>', 'packet_tx: &PacketTx', 1),
